@@ -350,6 +350,18 @@ def names_rule(repo, res, rule="NAMES"):
         res.check(bool(cm) and "cmd" in cm.group(1), rule, f"{rule}:{mod}:cmd-body", f"body of _<cmd>_cmd_<id> is the hole {cm.group(1) if cm else None}", fn.loc())
 
 
+def cmd_set_name(repo, fn, envs):
+    """the local that holds the one command-id set: what is passed as the second argument of get_lookup_tables (a local bound to
+    dfa.get_commands())"""
+    for c in P.find_calls(fn.body, names={"get_lookup_tables"}):
+        a = c["args"][1] if len(c["args"]) > 1 else None
+        while a is not None and a["k"] in ("Ref", "Unary"):
+            a = a["expr"]
+        if a is not None and a["k"] == "Path" and "::" not in a["path"]:
+            return a["path"]
+    return None
+
+
 def shared_cmd_ids(repo, res, rule="FLAGS"):
     for mod in RE.EMITTERS:
         fn = repo.fn(f"{mod}::write_completion_script")
@@ -361,7 +373,8 @@ def shared_cmd_ids(repo, res, rule="FLAGS"):
         ok = len(calls) == 2 and ids[0] == ids[1] and "get_commands" in A.show(ids[0])
         res.check(ok, rule, f"{rule}:{mod}:one-command-id-set", "main and within-word tables number commands from the same dfa.get_commands()", fn.loc())
         # the _cmd_ functions are numbered from that same set
-        loops = [n for n in A.walk(fn.body) if n["k"] == "ForLoop" and "id_from_cmd" in repo.text(fn.file, n["iter"])]
+        setname = cmd_set_name(repo, fn, envs)
+        loops = [n for n in A.walk(fn.body) if n["k"] == "ForLoop" and setname and re.search(r"\b%s\b" % re.escape(setname), repo.text(fn.file, n["iter"]))]
         res.check(len(loops) >= 1, rule, f"{rule}:{mod}:cmd-functions-from-same-set", "_cmd_<id> functions are emitted by iterating that set", fn.loc())
         # flags: the table flag equals the code flag
         for c in calls:
@@ -442,7 +455,7 @@ def descrlink(repo, res, ty, rule="DESCRLINK"):
                 p0 = A.show(A.resolve(s.holes[0][2], envs.get(id(s.holes[0][2])) or s.env))
                 p1 = A.show(A.resolve(s.holes[1][2], envs.get(id(s.holes[1][2])) or s.env))
                 m0 = re.fullmatch(r"(elem\[.*\])\.0", p0)
-                m1 = re.fullmatch(r"make_string_constant\((elem\[.*\])\.2\)", p1)
+                m1 = re.fullmatch(r"\w+\((elem\[.*\])\.2\)", p1)
                 ok = bool(m0 and m1 and m0.group(1) == m1.group(1))
                 why = f"row `{s.template.strip()}`: key <= {p0[:60]}, text <= {p1[:70]}"
         res.check(ok, rule, f"{rule}:pwsh::write_literals", why + ("" if ok else " -- id and description must be fields .0 and .2 of the same all_literals row"), fn.loc())
